@@ -10,6 +10,7 @@
 #include "types.h"
 #include "utils.h"
 #include "value.h"
+#include "verif_hooks.h"
 
 #include <algorithm>
 #include <chrono>
@@ -172,13 +173,17 @@ Search::Search(const Position& position, const Limits& limits,
 
 void Search::stop()
 {
+    VERIF_POINT(SEARCH_STOP, this, nullptr, nullptr);
     stop_search = true;
 }
 
 void Search::go()
 {
+    VERIF_POINT(GO_ENTER, this, nullptr, nullptr);
     init_search();
+    VERIF_POINT(GO_INIT_DONE, this, nullptr, nullptr);
     stop_search = false;
+    VERIF_POINT(GO_RESET_DONE, this, nullptr, nullptr);
     _start_time = std::chrono::steady_clock::now();
 
     // check if there is only one move to make
@@ -189,6 +194,7 @@ void Search::go()
     iter_search();
 
     ASSERT(_best_move != NO_MOVE);
+    VERIF_POINT(GO_BESTMOVE, this, nullptr, nullptr);
     sync_cout << "bestmove " << _position.uci(_best_move) << sync_endl;
 }
 
@@ -259,6 +265,7 @@ void Search::iter_search()
     _current_depth = 0;
     while (!stop_search)
     {
+        VERIF_POINT(ITER_START, this, nullptr, nullptr);
         _current_depth++;
 
         _stats = SearchStats{};
@@ -328,6 +335,7 @@ void Search::iter_search()
 Value Search::search(Position& position, Depth depth, Value alpha, Value beta,
                      Info* info)
 {
+    VERIF_POINT(NODE, this, info, &position);
     ASSERT(alpha < beta);
 
     info->_ply = (info - 1)->_ply + 1;
@@ -647,6 +655,7 @@ Value Search::search(Position& position, Depth depth, Value alpha, Value beta,
 Value Search::quiescence_search(Position& position, Depth depth, Value alpha,
                                 Value beta, Info* info)
 {
+    VERIF_POINT(QNODE, this, info, &position);
     ASSERT(alpha < beta);
 
     info->_ply = (info - 1)->_ply + 1;
